@@ -259,7 +259,7 @@ static void generate(Rng &rng, const Opts &o, std::vector<std::string> &lines) {
         lines.push_back(l.get());
     };
     for (long k = 0; k < N; ++k) {
-        int stream = (int)rng.range(0, 9);
+        int stream = (int)rng.range(0, 10);
         long n = rng.coin(1, 14) ? 1 : rng.range(2, nmax);
         Mat A = gen_matrix(rng, n, (int)rng.range(0, 7)); n = A.n;
         Q p = rng.pick(ps), tau = rng.pick(taus);
@@ -272,6 +272,10 @@ static void generate(Rng &rng, const Opts &o, std::vector<std::string> &lines) {
             if (rng.coin(1, 5)) A = unsort(rng, A, false);
         } else if (stream <= 7) {                // as generated (equal magnitudes are frequent: SPD M-matrices, small integers): many ties
             if (rng.coin(1, 4)) A = unsort(rng, A, rng.coin(1, 2));
+        } else if (stream == 10) {               // off-diagonals +-1, small p: the cut falls inside groups of equal magnitude (`tie` on both sides)
+            n = rng.range(3, nmax); A = gen_dd(rng, n, (int)rng.range(40, 80), true); auto rows = to_rows(A);
+            for (long i = 0; i < n; ++i) for (auto &cv : rows[i]) if (cv.first != i) cv.second = Q(rng.coin() ? 1 : -1);
+            A = from_rows(n, n, rows); p = rng.pick(std::vector<Q>{ Q::frac(1, 2), Q::frac(2, 3), Q(1), Q(2) }); tau = rng.pick(std::vector<Q>{ Q(0), Q::frac(1, 100) });
         } else {                                 // dense-ish rows, small p: the fill limits cut a lot
             n = rng.range(3, nmax); A = distinct_magnitudes(gen_dd(rng, n, (int)rng.range(50, 90))); p = rng.pick(std::vector<Q>{ Q::frac(1, 2), Q::frac(2, 3), Q(1), Q::frac(5, 4) }); tau = rng.pick(std::vector<Q>{ Q(0), Q::frac(1, 100), Q::frac(1, 20) });
             for (int tries = 0; tries < 6 && is_tie(A, p, tau); ++tries) A = distinct_magnitudes(gen_dd(rng, n, (int)rng.range(50, 90)));
